@@ -5,10 +5,57 @@ deadline variants) - TLC checks NoPartialDoc, ElapsedBounded and the liveness pr
 under weak fairness for the deadline discipline of the current tree.  Fault enumeration on the real
 jtp.Get against the simulator: every cut point of every response of the corpus byte by byte (close and
 reset), refusal, garbage, reset before the handshake, and stalls/trickles at every stage and hop with a
-1 s timeout.  T_Faults judges every observation.
+1 s timeout.  T_Faults judges every observation.  Items: Assembly.tla (fan-out of secondary fetches joined
+before the item exists, operations of a page afterwards) - TLC checks that the join is always reached and
+errors are represented; every (quick: single, thorough: pairs + sampled) assignment of peer behaviours to
+the branches of posts, activities and actors is realised through pub.New and judged by T_Assembly.
 """
 import vlib
 from checks.common import run_harness
+
+
+KINDS = {"post": '{"parent", "authors", "recipients", "replies"}', "activity": '{"actor", "object"}', "actor": '{"outbox"}'}
+
+
+def assembly(ctx, res, rnd):
+    """Items assembled from an intact primary document and faulty secondary fetches (Assembly.tla)."""
+    q = ctx.quick
+    cases = []
+    for kind, deps in KINDS.items():
+        r = ctx.tlc("Assembly", "MC_Assembly.cfg", consts={"Deps": deps, "GenKind": '"%s"' % kind}).require_clean()
+        res.add_tlc(r)
+        obl = ctx.tlc("Assembly", "Gen_Assembly.cfg", consts={"Deps": deps, "GenKind": '"%s"' % kind}).json_lines("GEN")
+        if len(obl) != 7 ** (deps.count(",") + 1):
+            raise vlib.Inconclusive("assembly generator produced %d obligations for %s" % (len(obl), kind))
+        few = [o for o in obl if sum(1 for k in o["fault"].values() if k != "none") <= (1 if q else 2)]
+        rest = [o for o in obl if o not in few]
+        rnd.shuffle(rest)
+        cases += few + rest[:(8 if q else 150)]
+    evs, rc, txt = run_harness(ctx, "pub", "TestVerifAssembly", {"cases": cases}, timeout=3000, allow_fail=True)
+    done = {e["n"] for e in evs if e["ev"] == "assembled"}
+    begun = [e for e in evs if e["ev"] == "begin"]
+    if rc != 0:
+        if "panic:" in txt and begun and begun[-1]["n"] not in done:
+            b = begun[-1]
+            evs.append({"ev": "assembled", "n": b["n"], "kind": b["kind"], "fault": b["fault"], "stages": 1, "built": False, "panic": True,
+                        "ops": [], "rep": {}, "what": "process crashed: " + txt[-1200:], "ticks": 0, "ms": 0, "type": ""})
+        else:
+            raise vlib.Inconclusive("assembly harness failed:\n" + txt[-2000:])
+    abad, r4 = vlib.judge(ctx, "T_Assembly", "T_Assembly.cfg", evs, name="T_Assembly")
+    items = [e for e in evs if e["ev"] == "assembled"]
+    res.traces += len(items)
+    for e in items:
+        res.case(["assembly", e["kind"], sorted(e["fault"].items())])
+    res.extra["items_assembled_under_faults"] = len(items)
+    res.extra["assembly_representation"] = {k: sum(1 for e in items for v in e["rep"].values() if v == k) for k in ("value", "error", "absent")}
+    for e in items[:1] + items[-1:]:
+        res.sample({k: e.get(k) for k in ("kind", "fault", "built", "ticks", "rep", "type")})
+    for b in abad:
+        e = evs[b["line"] - 1]
+        broken = sorted(k for k, v in e["fault"].items() if v != "none")
+        sig = {"monitor": "T_Assembly", "why": b["why"].split(" on the item")[0], "kind": e["kind"], "branches": broken}
+        path = vlib.save_replay(ctx.pid, "assembly-%d" % e["n"], e)
+        res.violations.append((sig, path, "%s with %s: %s %s" % (e["kind"], {k: e["fault"][k] for k in broken}, b["why"], ((e.get("what") or "") + " ".join(o["what"] for o in e["ops"] if o["outcome"] != "ok"))[:200])))
 
 
 def run(ctx):
@@ -60,6 +107,7 @@ def run(ctx):
                                    "the process crashed when a collection page failed to load: layout %s" % begun[-1]["pages"]))
         else:
             raise vlib.Inconclusive("paging harness failed:\n" + ptxt[-2000:])
+    assembly(ctx, res, rnd)
     for b in bad:
         e = evs[b["line"] - 1]
         sig = {"monitor": "T_Faults", "why": b["why"], "kind": e["kind"], "after_handshake": e["stage"] not in ("connect", "handshake")}
